@@ -404,6 +404,10 @@ func (g *PGen) callback(d int) *Node {
 var condNames = []string{"e1", "e2", "my-error", "condition"}
 
 func (g *PGen) swallow(d int) *Node {
+	if g.o.FP && g.r.Chance(1, 6) {
+		// the handler is a host builtin, itself a fault point (91 / 92)
+		return L(A("handler-bind"), L(L(A(PickStr(g.r, condNames)), A(PickStr(g.r, []string{"sim:hf1", "sim:hf2"})))), g.mayFail(d-1))
+	}
 	switch g.r.Intn(4) {
 	case 0:
 		return Call("or", Call("ignore-errors", g.mayFail(d-1)), g.E(d-1))
